@@ -89,11 +89,30 @@ def _spawn_cli(src, o, hashseed, workdir, tag):
                 os.remove(q)
 
 
+MIXED = '''empty show(const int[] a) { write("ints:"); write(a.length); }
+empty show(const byte[] a) { write("bytes:"); write(a); }
+empty show(const bool[] a) { write("bools:"); write(a.length); }
+empty fin() { write("bye"); all_is_broken(); }
+empty fin(int code) { if (code > 0) { write(code); all_is_broken(); } write("ok"); }
+empty @is_you(int v, byte b) {
+  show([72, 'i']); show(['i', 72]); show([b, 1]); show([1, b, 2]); show([v, b]); show([true, v > 0]);
+  write([72, 'i'].length); write(['a', 66][1]); write([b, 300 - 255][0] is int);
+  int[] m = [b, 'c', 3]; byte[] n = ['x', 9]; write(m[1]); write(n);
+  fin(v); fin();
+}'''
+
+
 # ------------------------------------------------------------------------- driver
 def corpus(tier, seed):
     rng = random.Random(seed)
     progs = C.examples() + C.codegen_programs() + C.generated_programs(rng, 4 if tier == 'quick' else 10) \
         + C.OPTION_PROGRAMS
+    # programs of the run-time families: many hash-ordered decisions hide in type inference and table building
+    from . import gen as G, fam_seq, fam_tt
+    progs += [('misc_' + n, src) for n, src, _ in fam_seq.MISC] + [('layout', fam_seq.LAYOUT_PROG)]
+    progs += [('mixed_literals', MIXED)] + [('tt_' + n, (t % {'kind': 'stop'}) if '%(kind)s' in t else t) for n, t, _ in fam_tt.TEMPLATES]
+    progs += [('gen%d' % k, G.generate(seed * 811 + k, {'faults': 0.1})[0]) for k in range(12 if tier == 'quick' else 120)]
+    progs += [('ttgen%d' % k, fam_tt.TTGen(seed * 811 + k).program()) for k in range(4 if tier == 'quick' else 40)]
     keys = []
     for label, src in progs:
         keys.append((label, src, R.opts()))
